@@ -63,10 +63,10 @@ _add("SmVerif.Tie.Detect", "RsDetector", [_T + "Detect." + n for n in
     "tie_lines_aux tie_lines_total tie_lines tie_trim locate_total tie_locate_sourcemap_reference locate_error_is_io locate_invalid_utf8 valid_hypothesis_needed locate_before_invalid gen_c18_locate gen_c18_first_line gen_c18_none_iff gen_c18_legacy_iff gen_c18_embedded".split()])
 _add("SmVerif.Tie.Detect", "RsDetectCommon", [_T + "Detect." + n for n in "tie_is_sourcemap_common gen_c18_detects_serialised gen_c18_detects_serialised'".split()])
 _add("SmVerif.Tie.Prefix", "RsPrefix", [_T + "Prefix.tie_prefix_source", _T + "Prefix.prefix_source_total"])
-_add("SmVerif.Tie.Prefix", "RsTypes", [_T + "Prefix.tie_prefix_source_types", _T + "Prefix.prefix_source_units_agree"])
+_add("SmVerif.Tie.Prefix", "RsSourceMap", [_T + "Prefix.tie_prefix_source_types", _T + "Prefix.prefix_source_units_agree"])
 _add("SmVerif.Tie.Builder", "RsBuilder", [_T + n for n in
     "tie_new tie_set_debug_id tie_set_file tie_get_file tie_set_source_root tie_get_source_root tie_add_to_ignore_list".split()])
-_add("SmVerif.Tie.Builder2", "RsTypes", [_T + n for n in
+_add("SmVerif.Tie.Builder2", "RsSourceMap", [_T + n for n in
     "tie_sm_get_file tie_sm_get_source tie_sm_get_source_contents tie_sm_get_name tie_sm_add_to_ignore_list tie_sm_set_debug_id tie_sm_set_source_root sort_toTok tie_sm_new tie_token_get_source tie_token_get_name".split()])
 _add("SmVerif.Tie.Builder2", "RsBuilder", [_T + n for n in
     "tie_add_token_gen tie_add_token add_token_offset tie_strip_loop2 tie_strip_prefixes strip_prefixes_needs_utf8 tie_into_sourcemap tie_run_into_sourcemap".split()])
